@@ -258,6 +258,10 @@ pub struct ObjSpec {
     pub immediate_stop: Option<bool>,
     pub source: SourceSpec,
     pub reserve_toi: bool,
+    /// stream sources only: where the cursor of the stream stands when it is handed to flute (mapped
+    /// monotonically onto 0..=len); the object is the whole stream whatever this is
+    #[serde(default)]
+    pub stream_start: u16,
 }
 
 impl ObjSpec {
@@ -267,6 +271,7 @@ impl ObjSpec {
             content_type: "application/octet-stream".into(),
             location: format!("file:///obj{}", seed),
             md5: true,
+            stream_start: 0,
             cenc: 0,
             inband_cenc: false,
             oti: None,
@@ -395,7 +400,11 @@ impl ObjSpec {
                 d
             }
             SourceSpec::Cursor => ObjectDesc::create_from_stream(
-                Box::new(std::io::Cursor::new(bytes.clone())),
+                Box::new({
+                    let mut c = std::io::Cursor::new(bytes.clone());
+                    c.set_position((((self.stream_start as usize) * (bytes.len() + 1)) >> 16) as u64);
+                    c
+                }),
                 &self.content_type,
                 &url,
                 self.md5,
@@ -422,7 +431,7 @@ impl ObjSpec {
                 let log = std::sync::Arc::new(std::sync::Mutex::new(vec![]));
                 stream_log = Some(log.clone());
                 ObjectDesc::create_from_stream(
-                    Box::new(ChunkedStream { data: bytes.clone(), pos: 0, chunks: chunks.clone(), idx: 0, log }),
+                    Box::new(ChunkedStream { data: bytes.clone(), pos: ((self.stream_start as usize) * (bytes.len() + 1)) >> 16, chunks: chunks.clone(), idx: 0, log }),
                     &self.content_type,
                     &url,
                     self.md5,
